@@ -2,3 +2,5 @@ import NTV.Proofs.C10
 #print axioms NTV.C10.gcd_zero_left
 #print axioms NTV.C10.gcd_certificate_sound
 #print axioms NTV.C10.result_shape_partial
+#print axioms NTV.C10.is_gcd_partial
+#print axioms NTV.C10.gcd_unique
